@@ -371,7 +371,7 @@ func (f replyForm) encode(fl flowInfo, probe []byte, from netip.Addr, ttl int, s
 		seg := tcpSegment(from, fl.Local, fl.TPort, fl.LPort, 0x51f3a9c7, ack, flags, f.TCPOpts, nil)
 		return ip4Packet(from, fl.Local, 6, 0, 61, 0, 0x4000, f.OuterOpts, seg)
 	case "sack":
-		var opts []byte
+		opts := append([]byte(nil), f.TCPOpts...) // option bytes in front of the SACK option (lattice stream)
 		if f.Timestamp {
 			opts = append(opts, 1, 1, 8, 10, 0, 0, 0x10, 0, 0, 0, 0x20, 0)
 		}
